@@ -66,8 +66,43 @@ def callTrace (k : Kind) : PyVal → List Json → List Json
     let r := callStep k s j
     Json.mkObj [("out", r.2), ("state", ofPy r.1)] :: callTrace k r.1 rest
 
+/-- one step of a session on ONE object: add / dumps / loads of its own last dump / loads of another manifest's dump -/
+def sessionStep (k : Kind) (other : Except Err PyVal) (st : Manifest × Option PyVal) (j : Json) :
+    (Manifest × Option PyVal) × Json :=
+  let m := st.1
+  let call := getStrD j "call"
+  if call == "dumps".toList then
+    let r := dumpDoc k m
+    match r.2 with
+    | .ok doc => ((r.1, some doc), jok (jstr (JsonText.dumps doc)))
+    | .error e => ((r.1, st.2), errJson e)
+  else if call == "loads_own".toList then
+    match st.2 with
+    | some doc => let r := loadS k m (reparse doc); ((r.1, st.2), outJson r.2)
+    | none => (st, jerr "NoText")
+  else if call == "loads_other".toList then
+    match other with
+    | .ok doc => let r := loadS k m (reparse doc); ((r.1, st.2), outJson r.2)
+    | .error e => (st, errJson e)
+  else
+    let r := step m.payload (addOp k j)
+    (({ m with payload := r.1 }, st.2), outJson r.2)
+
+def sessionTrace (k : Kind) (other : Except Err PyVal) : Manifest × Option PyVal → List Json → List Json
+  | _, [] => []
+  | st, j :: rest =>
+    let r := sessionStep k other st j
+    Json.mkObj [("out", r.2), ("state", manifestJson r.1.1)] :: sessionTrace k other r.1 rest
+
 def ops : List (String × (Json → Json)) :=
-  [("bld_trace", fun a =>
+  [("bld_session", fun a =>
+      let k := kindOf (getStrD a "kind")
+      let o := get a "other"
+      let mo : Manifest := { version := .str "0.0".toList, compose := objOf (get o "compose"),
+                             payload := runOps Mf.empty ((getArr o "ops").map (addOp k)) }
+      let m0 : Manifest := { version := .str "0.0".toList, compose := objOf (get a "compose"), payload := Mf.empty }
+      Json.arr (sessionTrace k (dumpDoc k mo).2 (m0, none) (getArr a "steps")).toArray),
+   ("bld_trace", fun a =>
       let k := kindOf (getStrD a "kind")
       let init := match a.getObjVal? "init" with | .ok j => toPy j | _ => Mf.empty
       Json.arr (callTrace k init (getArr a "ops")).toArray),
